@@ -15,6 +15,7 @@ package rep
 //@   elem_invariant recvQ: !shared(elem.m) && elem.m != nil && elem.p != nil
 //@
 //@ struct context
+//@   close_token closeQ when closed
 //@   guarded_by s.Mutex: closed recvWait recvExpire recvPipe sendExpire bestEffort backtrace
 //@   immutable: s closeQ
 //@
@@ -115,3 +116,6 @@ package rep
 //@
 //@ func (*socket).AddPipe
 //@   before call:SetPrivate#1 assert cap(p.sendQ) == s.sendQLen
+//@
+//@ func (*socket).RemovePipe
+//@   may_close p.closeQ caller
